@@ -349,41 +349,64 @@ def run_replay(cases_path, name="replay", jobs=1, timeout=3600):
     return out
 
 
+TRACE_CHUNK = 100000    # events per TLC run: every worker holds the deserialized file (about 5 kB of heap per event)
+
+
 def run_trace(events_path, name="trace", spec="trace/Trace_Events", workers=8, timeout=7200, select=None):
     """Direction B: validate events recorded from the real code with a TLC trace specification.
-    Returns (n_events, [non-conforming events], TlcResult)."""
+    Returns (n_events, [non-conforming events], TlcResult).  Large recordings are validated in chunks of
+    TRACE_CHUNK events (the events are independent of one another); the returned TlcResult is the first
+    chunk's, with the state counts of all chunks added up."""
     wdir = os.path.join(WORK, "trace", name)
     shutil.rmtree(wdir, ignore_errors=True)
     os.makedirs(wdir)
-    sel = os.path.join(wdir, "events.ndjson")
+    parts = []
     n = 0
-    with open(events_path) as fh, open(sel, "w") as out:
+    out = None
+    with open(events_path) as fh:
         for line in fh:
             if not line.strip():
                 continue
             if select is not None and not select(json.loads(line)):
                 continue
+            if n % TRACE_CHUNK == 0:
+                if out:
+                    out.close()
+                parts.append(os.path.join(wdir, "events.ndjson" if not parts else "events.part%d.ndjson" % len(parts)))
+                out = open(parts[-1], "w")
             out.write(line)
             n += 1
+    if out:
+        out.close()
     if n == 0:
         return 0, [], None
-    r = run_tlc(spec, name="trace-" + name, workers=workers, timeout=timeout, coverage=False,
-                env_extra={"TRACE": sel})
     bad = []
-    with open(r.cases_path) as fh:
-        for line in fh:
-            o = json.loads(line)
-            if "nonconf" in o:
-                bad.append(o)
-    if r.error:
-        raise ToolError("trace specification failed on %s: %s" % (name, r.error))
-    # every line consumed: 1 initial state + K chain heads + one state per event
-    expect = 1 + 16 + n
-    if r.distinct != expect:
-        raise ToolError("trace validation of %s consumed %d states, expected %d (events not all consumed)" % (
-            name, r.distinct, expect))
-    log("trace  %-26s %9d events   %6d non-conforming" % (name, n, len(bad)))
-    return n, bad, r
+    first = None
+    for k, sel in enumerate(parts):
+        nk = min(TRACE_CHUNK, n - k * TRACE_CHUNK)
+        r = run_tlc(spec, name="trace-" + name + ("" if k == 0 else ".part%d" % k), workers=workers, timeout=timeout,
+                    coverage=False, env_extra={"TRACE": sel})
+        with open(r.cases_path) as fh:
+            for line in fh:
+                o = json.loads(line)
+                if "nonconf" in o:
+                    o["nonconf"] += k * TRACE_CHUNK
+                    bad.append(o)
+        if r.error:
+            raise ToolError("trace specification failed on %s: %s" % (name, r.error))
+        # every line consumed: 1 initial state + K chain heads + one state per event
+        expect = 1 + 16 + nk
+        if r.distinct != expect:
+            raise ToolError("trace validation of %s consumed %d states, expected %d (events not all consumed)" % (
+                name, r.distinct, expect))
+        if first is None:
+            first = r
+        else:
+            first.distinct += r.distinct
+            first.generated += r.generated
+            first.wall += r.wall
+    log("trace  %-26s %9d events   %6d non-conforming%s" % (name, n, len(bad), ("  (%d chunks)" % len(parts)) if len(parts) > 1 else ""))
+    return n, bad, first
 
 
 def _codepoints(hexstr):
